@@ -557,6 +557,63 @@ Proof.
   destruct (G (ninit caps)) as [ops E]. exists caps, ops. exact E.
 Qed.
 
+(* ... reached without the client operation remote_add_register: the NetQASM backend only ever issues create / gate / send /
+   measure (the hypothesis of Net/NonEmpty.v) *)
+Lemma native_core s o : core_op o -> Forall core_op (tops (snd (native s o))).
+Proof. intro H. unfold native. destruct (step (q_net s) o) as [n' r]. simpl. constructor; auto. Qed.
+
+Lemma cmd_new_core i s p : Forall core_op (tops (snd (cmd_new i s p))).
+Proof. eapply Forall_impl; [|apply (cmd_new_own i s p)]. intros o Ho; apply (own_op_core i o Ho). Qed.
+
+Lemma exec_core i s q : Forall core_op (tops (snd (exec i s q))).
+Proof. eapply Forall_impl; [|apply (exec_own i s q)]. intros o Ho; apply (own_op_core i o Ho). Qed.
+
+Lemma cmd_epr_keep_core i s known r adj qid : Forall core_op (tops (snd (cmd_epr_keep i s known r adj qid))).
+Proof.
+  unfold cmd_epr_keep. destruct (negb (epr_gate known i r adj)); [constructor|].
+  pose proof (cmd_new_core i s (PP qid)) as C1.
+  destruct (cmd_new i s (PP qid)) as [[s1 ok1] t1]. simpl in C1. destruct (negb ok1); [exact C1|].
+  pose proof (cmd_new_core i s1 (PM qid)) as C2.
+  destruct (cmd_new i s1 (PM qid)) as [[s2 ok2] t2]. simpl in C2.
+  assert (C12 : Forall core_op (tops (t1 ++ t2))) by (unfold tops in *; rewrite map_app; apply Forall_app; auto).
+  destruct (negb ok2); [exact C12|].
+  destruct (virt_of (q_host s2) (PP qid)) as [h1|]; [|exact C12].
+  destruct (virt_of (q_host s2) (PM qid)) as [h2|]; [|exact C12].
+  pose proof (native_core s2 (OGate1 h1 NH) I) as C3. destruct (native s2 (OGate1 h1 NH)) as [[s3 r3] t3]. simpl in C3.
+  pose proof (native_core s3 (OGate2 h1 h2 NCnot) I) as C4. destruct (native s3 (OGate2 h1 h2 NCnot)) as [[s4 r4] t4]. simpl in C4.
+  pose proof (native_core s4 (OSend h2 r) I) as C5. destruct (native s4 (OSend h2 r)) as [[s5 r5] t5]. simpl in C5.
+  assert (C15 : Forall core_op (tops (t1 ++ t2 ++ t3 ++ t4 ++ t5))).
+  { unfold tops in *. rewrite !map_app. repeat (apply Forall_app; split); auto. }
+  destruct r5; exact C15.
+Qed.
+
+Lemma nstep_net_run_core s x : exists ops, Forall core_op ops /\ n_net (nstep s x) = run (n_net s) ops.
+Proof.
+  unfold nstep. destruct x as [i q|i app a known r adj rsock|i app a sock]; cbn [nstep_r].
+  - destruct (Nat.ltb i (length (n_hosts s))); [|exists []; split; [constructor|reflexivity]].
+    pose proof (exec_net_run i (mkQ (n_net s) (host_at s i)) q) as NR.
+    pose proof (exec_core i (mkQ (n_net s) (host_at s i)) q) as NC.
+    destruct (exec i (mkQ (n_net s) (host_at s i)) q) as [[s' res] tr]. cbn [fst snd q_net] in *. eauto.
+  - destruct (Nat.ltb i (length (n_hosts s))); [|exists []; split; [constructor|reflexivity]].
+    pose proof (cmd_epr_keep_net_run i (mkQ (n_net s) (host_at s i)) known r adj (fresh_id (h_used (host_at s i)))) as NR.
+    pose proof (cmd_epr_keep_core i (mkQ (n_net s) (host_at s i)) known r adj (fresh_id (h_used (host_at s i)))) as NC.
+    destruct (cmd_epr_keep _ _ _ _ _ _) as [[s1 res] tr]. cbn [fst snd q_net] in *.
+    destruct res as [[v|]| |]; cbn [fst n_net]; eauto.
+  - destruct (Nat.ltb i (length (n_hosts s))); [|exists []; split; [constructor|reflexivity]].
+    destruct (take_pend i sock (n_pend s)) as [[[num hd] pd']|]; [|exists []; split; [constructor|reflexivity]].
+    destruct (hid_of_num _ _); [|exists []; split; [constructor|reflexivity]].
+    destruct (plookup _ _); exists []; split; try constructor; reflexivity.
+Qed.
+
+Theorem nrun_reachable_core caps xs : reachable_core (n_net (nrun (ninit caps) xs)).
+Proof.
+  assert (G : forall s, exists ops, Forall core_op ops /\ n_net (nrun s xs) = run (n_net s) ops).
+  { induction xs as [|x t IH]; intros s; simpl; [exists []; split; [constructor|reflexivity]|].
+    destruct (IH (nstep s x)) as [ops2 [F2 E2]]. destruct (nstep_net_run_core s x) as [ops1 [F1 E1]].
+    exists (ops1 ++ ops2). split; [apply Forall_app; auto|]. rewrite run_app, <- E1. exact E2. }
+  destruct (G (ninit caps)) as [ops [F E]]. exists caps, ops. split; auto.
+Qed.
+
 Lemma nrun_hosts_length xs : forall s, length (n_hosts (nrun s xs)) = length (n_hosts s).
 Proof.
   induction xs as [|x t IH]; intros s0; simpl; auto. rewrite IH. unfold nstep.
@@ -596,7 +653,7 @@ Proof.
       cbn [q_net] in X. rewrite P in X.
       destruct (hn (nth_node (n_net s) j)) as [|y t]; auto. destruct (X y); simpl; auto.
     - rewrite nth_node_overflow; [reflexivity|]. rewrite <- (g_len s I). exact Hj. }
-  intro j. destruct (nothing_held_nothing_left _ (nrun_reachable caps xs) V0 j) as (A & B & D). auto.
+  intro j. destruct (nothing_held_nothing_left _ (nrun_reachable_core caps xs) V0 j) as (A & B & D). auto.
 Qed.
 
 (* halves handed to another node are not destroyed by the creator's teardown: NOTHING host i executes -- a stop of its
